@@ -116,16 +116,7 @@ def compose(c1, c2, l1, l2, l3=None, attr_on=None):
 # ---------------------------------------------------------------------------- untraced helpers
 
 
-def untraced(fn, *a, **k):
-    """run fn outside CrossHair's tracing (its inputs are concrete): identical result, much faster"""
-    try:
-        from crosshair.tracers import NoTracing, is_tracing
-    except Exception:
-        return fn(*a, **k)
-    if not is_tracing():
-        return fn(*a, **k)
-    with NoTracing():
-        return fn(*a, **k)
+from vlib.sym import untraced  # noqa: E402,F401
 
 
 _mods = {}
